@@ -96,6 +96,10 @@ func wrapValues(w int) []uint64 {
 		}
 	}
 	add(uint64(1)<<(bits-3) + 1)
+	if w == 4 {
+		// 32-bit counts are widened before they are multiplied in most places: the powers of two and the top value suffice
+		out = []uint64{1 << 29, 1<<29 + 1, 1 << 30, 1<<30 + 1, 1 << 31, 1<<31 + 1, 1<<32 - 1}
+	}
 	return out
 }
 
